@@ -73,7 +73,7 @@ Inductive dop :=
 (* ServerPuncher histories *)
 Inductive sop :=
 | SOpAdd (id : list byte) (m : rmeta) (ok : bool)
-| SOpRm (id : list byte)
+| SOpRm (id : list byte) (evs : list pev)           (* what was waiting in the channel, drained just before removeAttempt *)
 | SOpPkts (ps : list dpkt) (nret : nat)               (* datagrams read through the conn; all events dispatched afterwards *)
 | SOpTake (id : list byte) (evs : list pev).          (* everything waiting in that attempt's channel *)
 
@@ -196,7 +196,7 @@ Definition oracle_sane (ops : list dop) : bool :=
 
 (* ---- ServerPuncher ---- *)
 Definition s_all_obs (ops : list sop) : list pev :=
-  flat_map (fun o => match o with SOpTake _ evs => evs | _ => [] end) ops.
+  flat_map (fun o => match o with SOpTake _ evs => evs | SOpRm _ evs => evs | _ => [] end) ops.
 Definition s_stun_set (ops : list sop) : list (list byte) :=
   flat_map (fun o => match o with
                      | SOpPkts ps _ => flat_map (fun k => if k_stun k && negb (k_err k) then [k_bytes k] else []) ps
@@ -238,8 +238,10 @@ Fixpoint srun_ops (orc : list byte -> bool) (obs : list pev) (s : sstate) (ops :
       | Ok (s', SOAdd ok') => Bool.eqb ok ok' && srun_ops orc obs s' t
       | _ => false
       end
-  | SOpRm id :: t =>
-      match sstep256 orc s (SRemove id) with
+  | SOpRm id evs :: t =>
+      let '(s0, evs') := s_take_all orc (S defaultServerPunchEventBuffer) s id [] in
+      pevs_eqb evs evs' &&
+      match sstep256 orc s0 (SRemove id) with
       | Ok (s', _) => srun_ops orc obs s' t
       | _ => false
       end
